@@ -14,7 +14,12 @@ RULE = ("piecewise-constant histories with 1-8 epochs; sizes and break spacings 
         "(1e-6..1e6), as short dyadic numbers (exact in binary64) or arbitrary doubles, or of similar magnitude; time vectors "
         "with 0, every break, the doubles next to every break, points inside every epoch and beyond the last break, mapped "
         "forth and back; gamma (shape 0.3..200, rate placing the mass before, across or after the breaks) for "
-        "gamma_to_natural; plus invalid constructor arguments (non-positive / non-finite sizes, wrong lengths, unsorted or "
+        "gamma_to_natural (each called TWICE on the same object, many calls share one object); about 45% of the valid "
+        "histories additionally go through a reuse / argument-form battery: repeated and interleaved transform and gamma "
+        "calls on one object with the attributes and the argument arrays compared bit for bit before/after, times passed as "
+        "list (must raise ValueError), np.float32, int64, 0-d, 2-d and empty arrays, constructor arguments as "
+        "list/tuple/nested/np.float32/scalar float, int, np.float64, np.int64, 0-d, and PopulationSizeHistory(**as_dict()) "
+        "rebuilt AFTER all those calls; plus invalid constructor arguments (non-positive / non-finite sizes, wrong lengths, unsorted or "
         "non-positive breaks) and negative times, which must be rejected. Non-trivial: a valid history with >= 2 epochs, or "
         "a gamma_to_natural call; distinct by content hash")
 ASSUME = [
@@ -451,6 +456,119 @@ def oracle_gamma(ctx, it, res, h):
                         dict(rp, expected=want, mean=mn, var=va))
 
 
+def _same(a, b):
+    a, b = np.asarray(a, dtype=float), np.asarray(b, dtype=float)
+    return a.shape == b.shape and bool(np.all((a == b) | (np.isnan(a) & np.isnan(b))))
+
+
+ATTRS = ("time_breaks", "population_size", "coalescent_breaks", "coalescent_rate")
+
+
+def oracle_reuse(ctx, rng, case, out):
+    """the same object used for many calls, unusual argument forms, and the as_dict round trip AFTER
+    all of that: nothing may depend on earlier calls, on the container type of the times, or be
+    modified in place"""
+    from tsdate.demography import PopulationSizeHistory
+    if isinstance(out, str) or isinstance(out["co"], str) or isinstance(out["na"], str):
+        return
+    h = out["obj"]
+    rp = {"case": {k: case[k] for k in ("style", "pop", "brks", "ts", "cs")}}
+    snap = {a: np.array(getattr(h, a), copy=True) for a in ATTRS}
+    ts = np.array(case["ts"], dtype=float)
+    cs = np.array(case["cs"], dtype=float)
+    ts_keep, cs_keep = ts.copy(), cs.copy()
+
+    def fail(sig, what, **kw):
+        ctx.oracle_fail("reuse:" + sig, what, dict(rp, **kw))
+
+    # gamma_to_natural twice (state cached on / scaled inside the object would show here)
+    shape = rng.choice([0.7, 2.0, 11.0])
+    cb = [float(x) for x in h.coalescent_breaks]
+    rate = shape / (cb[1] if len(cb) > 1 and cb[1] > 0 else 1.0)
+    g = [impl_gamma(h, shape, rate) for _ in range(2)]
+    g.append(impl_gamma(h, np.float64(shape), np.float64(rate)))
+    if any(isinstance(x, str) for x in g) or not (_same(g[0], g[1]) and _same(g[0], g[2])):
+        return fail("gamma-second-call", "repeated gamma_to_natural calls on one object differ", gamma=[shape, rate], results=g)
+    # both transforms again, interleaved, after the gamma calls
+    for rep in range(2):
+        if not _same(call(h.to_coalescent_timescale, ts), out["co"]) or not _same(call(h.to_natural_timescale, cs), out["na"]):
+            return fail("repeat-call", "a repeated transform on the same object gives a different result", repetition=rep)
+    if not (np.array_equal(ts, ts_keep) and np.array_equal(cs, cs_keep)):
+        return fail("argument-modified", "the time array passed in was modified in place")
+    for a in ATTRS:
+        if not _same(getattr(h, a), snap[a]):
+            return fail("state-changed:" + a, "an attribute of the object changed after calls")
+    # argument forms
+    for name, f, x, ref in (("to_coalescent", h.to_coalescent_timescale, ts, out["co"]),
+                            ("to_natural", h.to_natural_timescale, cs, out["na"])):
+        try:
+            f(list(x))
+            return fail("list-accepted:" + name, "a list of times was accepted although the method documents numpy arrays only")
+        except ValueError as e:
+            if "numpy array" not in str(e):
+                return fail("list-error:" + name, "unexpected error text for a list argument", error=str(e))
+        except Exception as e:  # noqa
+            return fail("list-raise:" + name, "a list argument raised %s" % type(e).__name__, error=str(e)[:80])
+        x32 = x.astype(np.float32)
+        ok32 = np.isfinite(x32.astype(float)).all()
+        if ok32 and not _same(call(f, x32), call(f, x32.astype(np.float64))):
+            return fail("float32:" + name, "np.float32 times are not treated as their float64 values")
+        xi = np.floor(np.minimum(x, 2.0 ** 50)).astype(np.int64)
+        if not _same(call(f, xi), call(f, xi.astype(np.float64))):
+            return fail("int64:" + name, "integer times are not treated as their float64 values")
+        for i in (0, len(x) // 2, len(x) - 1):
+            try:
+                with warnings.catch_warnings():
+                    warnings.simplefilter("ignore")
+                    v = f(np.array(x[i]))
+            except Exception as e:  # noqa
+                return fail("0-d-raise:" + name, "a 0-d array raised %s" % type(e).__name__, error=str(e)[:80])
+            if np.shape(v) != () or not _same(v, ref[i]):
+                return fail("0-d:" + name, "a 0-d array gives a different value", index=i, value=float(v), expected=ref[i])
+        if len(x) % 2 == 0 and len(x) >= 2:
+            v = call(lambda z: f(z).ravel(), x.reshape(2, -1))
+            if not _same(v, ref):
+                return fail("2-d:" + name, "a 2-d array gives different values")
+        if call(f, np.array([], dtype=float)) != []:
+            return fail("empty:" + name, "an empty array is not mapped to an empty array")
+    # as_dict -> constructor, after everything above
+    d = h.as_dict()
+    try:
+        h2 = PopulationSizeHistory(**d)
+    except Exception as e:  # noqa
+        return fail("as_dict-rebuild-raise", "PopulationSizeHistory(**h.as_dict()) raised %s" % type(e).__name__, error=str(e)[:80])
+    if not all(_same(getattr(h2, a), snap[a]) for a in ATTRS) or not _same(call(h2.to_coalescent_timescale, ts), out["co"]):
+        return fail("as_dict-after-calls", "rebuilding from as_dict() after calls gives a different history")
+    if not _same(impl_gamma(h2, shape, rate), g[0]):
+        return fail("as_dict-gamma", "gamma_to_natural differs on the history rebuilt from as_dict()")
+    # constructor argument forms
+    pop, brks = case["pop"], case["brks"]
+    forms = [("list", list(pop), list(brks)), ("tuple", tuple(pop), tuple(brks)),
+             ("nested", [list(pop)], [list(brks)])]
+    if len(pop) == 1:
+        forms += [("float", float(pop[0]), None), ("np.float64", np.float64(pop[0]), None), ("0-d", np.array(pop[0]), None),
+                  ("empty-breaks", [pop[0]], [])]
+        if float(pop[0]).is_integer() and abs(pop[0]) < 2 ** 50:
+            forms += [("int", int(pop[0]), None), ("np.int64", np.int64(pop[0]), None)]
+    for nm, a, b in forms:
+        try:
+            hx = PopulationSizeHistory(a) if b is None else PopulationSizeHistory(a, b)
+        except Exception as e:  # noqa
+            return fail("constructor-form-raise:" + nm, "constructor raised %s on an equivalent argument form" % type(e).__name__, error=str(e)[:80])
+        if not all(_same(getattr(hx, at), snap[at]) for at in ATTRS):
+            return fail("constructor-form:" + nm, "an equivalent argument form builds a different history")
+    p32, b32 = np.array(pop, dtype=np.float32), np.array(brks, dtype=np.float32)
+    ref32 = build(p32.astype(float), b32.astype(float))
+    got32 = build(p32, b32) if True else None
+    try:
+        got32 = PopulationSizeHistory(p32, b32)
+    except ValueError:
+        got32 = "ValueError"
+    if isinstance(ref32, str) != isinstance(got32, str) or \
+            (not isinstance(ref32, str) and not all(_same(getattr(got32, at), getattr(ref32, at)) for at in ATTRS)):
+        return fail("constructor-float32", "np.float32 arguments are not treated as their float64 values")
+
+
 # ------------------------------------------------------------------ driver
 def history_block(ctx, model_ok, n, n_invalid):
     cases = []
@@ -506,6 +624,9 @@ def history_block(ctx, model_ok, n, n_invalid):
         oracle_history(ctx, c, o)
         if k % 6 == 0:
             oracle_quadrature(ctx, c, o)
+        if ctx.rng.random() < 0.45 and not isinstance(o, str):
+            ctx.tally("reuse-and-argument-forms")
+            oracle_reuse(ctx, ctx.rng, c, o)
     return cases, outs
 
 
@@ -528,6 +649,7 @@ def gamma_block(ctx, model_ok, cases, outs, n, n_quad):
         if it["tabs"] is None:
             continue
         it["res"] = impl_gamma(h, it["shape"], it["rate"])
+        it["res2"] = impl_gamma(h, it["shape"], it["rate"])          # SECOND call on the same object
         items.append(it)
     # invalid parameters are rejected
     c, o = valid[0]
@@ -541,10 +663,18 @@ def gamma_block(ctx, model_ok, cases, outs, n, n_quad):
             ok = (m is None) if isinstance(r, str) else (m is not None and K.close(r[0], m[0]) and K.close(r[1], m[1]))
             ctx.corr("gamma_to_natural", ok, "impl=%r model=%r" % (r, m),
                      replay={"case": {k: it[k] for k in ("pop", "brks", "shape", "rate")}, "impl": r, "model": m})
+            r2 = it["res2"]
+            ok2 = (m is None) if isinstance(r2, str) else (m is not None and K.close(r2[0], m[0]) and K.close(r2[1], m[1]))
+            ctx.corr("gamma_to_natural (second call, same object)", ok2, "impl=%r model=%r" % (r2, m),
+                     replay={"case": {k: it[k] for k in ("pop", "brks", "shape", "rate")}, "impl": r2, "model": m})
     for it in items:
         ctx.case({"gamma": True, "pop": it["pop"], "brks": it["brks"], "shape": it["shape"], "rate": it["rate"], "out": it["res"]},
                  nontrivial=True, kind="gamma/%s" % ("1-epoch" if len(it["pop"]) == 1 else ("quad" if it["quad"] else "multi")))
         oracle_gamma(ctx, it, it["res"], it["h"])
+        if not (isinstance(it["res2"], str) and it["res2"] == it["res"]) and not \
+                (not isinstance(it["res"], str) and not isinstance(it["res2"], str) and _same(it["res"], it["res2"])):
+            ctx.oracle_fail("reuse:gamma-second-call", "the second gamma_to_natural call on the same object differs from the first",
+                            {"case": {k: it[k] for k in ("pop", "brks", "shape", "rate")}, "first": it["res"], "second": it["res2"]})
 
 
 def run(ctx, model_ok=True):
